@@ -145,6 +145,7 @@ class Net:
         self.pending: list[Op] = []
         self.connects_in_flight = 0
         self.sleeps: list[float] = []
+        self.stale_layer_ops: list = []
         self.task_namer = lambda: None
 
     def now(self):
@@ -154,6 +155,10 @@ class Net:
     def new_op(self, kind, tr, layer, **args):
         op = Op(len(self.ledger), kind, tr, layer, args, self.task_namer(), self.now())
         self.ledger.append(op)
+        if kind in ("read", "write") and tr is not None and layer != len(tr.layers) and (kind == "read" or args.get("data")):
+            # I/O through a stream object of an outdated layer: the stream that start_tls() was called on, used after the upgrade
+            # (on a real socket: cleartext written underneath the TLS session / raw TLS records read as application data)
+            self.stale_layer_ops.append((op.i, kind, tr.id, layer, len(tr.layers)))
         return op
 
     def open_transports(self):
